@@ -419,19 +419,44 @@ Definition tr_stale_clean : list label :=
     LObserve "a" 2 [] true; LTick 2000; LKill "b";
     LTick 13000; LWake "a"; LStart "b" 20 12 false; LKeepalive "b"; LTick 13375 ].
 
+Definition phase_eqb (a b : phase) : bool :=
+  match a, b with Down, Down | Up, Up | Exiting, Exiting => true | _, _ => false end.
+Lemma phase_eqb_eq : forall a b, phase_eqb a b = true -> a = b.
+Proof. destruct a, b; simpl; intros H; try reflexivity; discriminate. Qed.
+
+Definition stale_clean_check : bool :=
+  match run (net0 0) tr_stale_clean with
+  | Some s =>
+      match step s (LObserve "a" 3 ["b"] false) with
+      | Some s' =>
+          is_up (n_ops s "b") && live_rec (n_now s) (n_status s) "b" &&
+          negb (live_rec (n_now s') (n_status s') "b") &&
+          is_up (n_ops s' "a") && is_up (n_ops s' "b") &&
+          negb (op_toggle (n_ops s' "a")) && negb (op_toggle (n_ops s' "b")) &&
+          negb (op_prio (n_ops s' "a") =? op_prio (n_ops s' "b"))
+      | None => false
+      end
+  | None => false
+  end.
+
 Lemma stale_clean_witness :
   exists s s', run (net0 0) tr_stale_clean = Some s /\
     is_up (n_ops s "b") = true /\ live_rec (n_now s) (n_status s) "b" = true /\
     step s (LObserve "a" 3 ["b"] false) = Some s' /\
     live_rec (n_now s') (n_status s') "b" = false /\
     (* both are now running un-paused although they have different priorities *)
-    is_up (n_ops s' "a") = true /\ op_toggle (n_ops s' "a") = false /\ op_toggle (n_ops s' "b") = false.
+    is_up (n_ops s' "a") = true /\ is_up (n_ops s' "b") = true /\
+    op_toggle (n_ops s' "a") = false /\ op_toggle (n_ops s' "b") = false /\
+    op_prio (n_ops s' "a") <> op_prio (n_ops s' "b").
 Proof.
-  destruct (run (net0 0) tr_stale_clean) as [s|] eqn:R; [|vm_compute in R; discriminate].
-  destruct (step s (LObserve "a" 3 ["b"] false)) as [s'|] eqn:S.
-  - exists s, s'. split; [reflexivity|].
-    vm_compute in R. injection R as <-. vm_compute in S. injection S as <-. vm_compute. repeat split; reflexivity.
-  - vm_compute in R. injection R as <-. vm_compute in S. discriminate.
+  assert (C : stale_clean_check = true) by (vm_compute; reflexivity).
+  unfold stale_clean_check in C.
+  destruct (run (net0 0) tr_stale_clean) as [s|] eqn:R; [|discriminate].
+  destruct (step s (LObserve "a" 3 ["b"] false)) as [s'|] eqn:S; [|discriminate].
+  repeat (apply andb_prop in C as [C ?]).
+  exists s, s'. repeat match goal with H : negb _ = true |- _ => apply negb_true_iff in H end.
+  split; [reflexivity|]. split; [assumption|]. split; [assumption|]. split; [exact S|].
+  repeat split; auto. now apply Z.eqb_neq.
 Qed.
 
 (* F1302: the paused op-c exits gracefully at 11 s (record removed), its draining worker wakes at 12 s
@@ -441,16 +466,29 @@ Definition tr_touch_after_exit : list label :=
     LTick 1000; LStart "c" 10 12 false; LKeepalive "c"; LList "c"; LObserve "b" 2 [] false;
     LObserve "c" 2 [] true; LTick 2000; LKill "b"; LTick 11000; LExit "c" ].
 
+Definition touch_after_exit_check : bool :=
+  match run (net0 0) tr_touch_after_exit with
+  | Some s1 =>
+      match run s1 [LTick 12000; LWake "c"; LGone "c"] with
+      | Some s2 => negb (live_rec (n_now s1) (n_status s1) "c") && phase_eqb (op_phase (n_ops s2 "c")) Down &&
+                   live_rec (n_now s2) (n_status s2) "c"
+      | None => false
+      end
+  | None => false
+  end.
+
 Lemma touch_after_exit_witness :
   exists s1 s2, run (net0 0) tr_touch_after_exit = Some s1 /\ live_rec (n_now s1) (n_status s1) "c" = false /\
     run s1 [LTick 12000; LWake "c"; LGone "c"] = Some s2 /\
     op_phase (n_ops s2 "c") = Down /\ live_rec (n_now s2) (n_status s2) "c" = true.
 Proof.
-  destruct (run (net0 0) tr_touch_after_exit) as [s1|] eqn:R1; [|vm_compute in R1; discriminate].
-  destruct (run s1 [LTick 12000; LWake "c"; LGone "c"]) as [s2|] eqn:R2.
-  - exists s1, s2. vm_compute in R1. injection R1 as <-. vm_compute in R2. injection R2 as <-.
-    vm_compute. repeat split; reflexivity.
-  - vm_compute in R1. injection R1 as <-. vm_compute in R2. discriminate.
+  assert (C : touch_after_exit_check = true) by (vm_compute; reflexivity).
+  unfold touch_after_exit_check in C.
+  destruct (run (net0 0) tr_touch_after_exit) as [s1|] eqn:R1; [|discriminate].
+  destruct (run s1 [LTick 12000; LWake "c"; LGone "c"]) as [s2|] eqn:R2; [|discriminate].
+  repeat (apply andb_prop in C as [C ?]).
+  exists s1, s2. apply negb_true_iff in C.
+  split; [reflexivity|]. split; [assumption|]. split; [exact R2|]. split; [now apply phase_eqb_eq | assumption].
 Qed.
 
 (* non-vacuity of the Top section: two operators that see each other, both synced *)
@@ -459,6 +497,53 @@ Definition tr_two_ops : list label :=
     LTick 1000; LStart "b" 100 60 false; LKeepalive "b"; LList "b"; LObserve "b" 2 [] false;
     LObserve "a" 2 [] true; LTick 5000 ].
 
+(* the hypotheses of the Top section, decidable for a concrete state *)
+Definition synced_b (s : net) (i : string) : bool :=
+  is_up (n_ops s i) && op_listed (n_ops s i) && match op_inbox (n_ops s i) with [] => true | _ => false end &&
+  match op_wake (n_ops s i) with Some w => n_now s <? w | None => true end.
+Definition own_b (s : net) (i : string) : bool :=
+  existsb (fun kv => String.eqb (fst kv) i && (r_prio (snd kv) =? op_prio (n_ops s i)) && (n_now s <? dl_at (n_now s) (snd kv))) (n_status s).
+Definition live_known_b (s : net) (ids : list string) : bool :=
+  forallb (fun kv => negb (n_now s <? dl_at (n_now s) (snd kv)) ||
+                     (mem_str (fst kv) ids && (r_prio (snd kv) =? op_prio (n_ops s (fst kv))))) (n_status s).
+
+Lemma synced_b_ok : forall s i, synced_b s i = true -> synced s i.
+Proof.
+  intros s i H. unfold synced_b in H. repeat (apply andb_prop in H as [H ?]).
+  repeat split; auto.
+  - destruct (op_inbox (n_ops s i)); [reflexivity | discriminate].
+  - intros w E. rewrite E in *. now apply Z.ltb_lt.
+Qed.
+
+Lemma own_b_ok : forall s i, own_b s i = true ->
+  exists r, In (i, r) (n_status s) /\ r_prio r = op_prio (n_ops s i) /\ n_now s < dl_at (n_now s) r.
+Proof.
+  intros s i H. unfold own_b in H. apply existsb_exists in H as ([j r] & Hin & H). simpl in H.
+  repeat (apply andb_prop in H as [H ?]). apply String.eqb_eq in H. subst j.
+  exists r. repeat split; auto; [now apply Z.eqb_eq | now apply Z.ltb_lt].
+Qed.
+
+Lemma mem_str_In : forall k l, mem_str k l = true -> In k l.
+Proof.
+  intros k l H. unfold mem_str in H. apply existsb_exists in H as (x & Hin & E). apply String.eqb_eq in E. now subst.
+Qed.
+
+Lemma live_known_b_ok : forall s ids, live_known_b s ids = true ->
+  forall j r, In (j, r) (n_status s) -> n_now s < dl_at (n_now s) r -> In j ids /\ r_prio r = op_prio (n_ops s j).
+Proof.
+  intros s ids H j r Hin Hl. unfold live_known_b in H. rewrite forallb_forall in H. specialize (H _ Hin). simpl in H.
+  apply orb_prop in H as [H | H].
+  - apply negb_true_iff in H. apply Z.ltb_ge in H. lia.
+  - apply andb_prop in H as [H1 H2]. split; [now apply mem_str_In | now apply Z.eqb_eq].
+Qed.
+
+Definition two_ops_check : bool :=
+  match run (net0 0) tr_two_ops with
+  | Some s => synced_b s "a" && synced_b s "b" && own_b s "a" && own_b s "b" && live_known_b s ["a"; "b"] &&
+              op_toggle (n_ops s "a") && negb (op_toggle (n_ops s "b"))
+  | None => false
+  end.
+
 Lemma two_ops_example :
   exists s, run (net0 0) tr_two_ops = Some s /\
     (forall i, In i ["a"; "b"] -> synced s i) /\
@@ -466,11 +551,14 @@ Lemma two_ops_example :
     (forall j r, In (j, r) (n_status s) -> n_now s < dl_at (n_now s) r -> In j ["a"; "b"] /\ r_prio r = op_prio (n_ops s j)) /\
     op_toggle (n_ops s "a") = true /\ op_toggle (n_ops s "b") = false.
 Proof.
-  destruct (run (net0 0) tr_two_ops) as [s|] eqn:R; [|vm_compute in R; discriminate].
-  exists s. split; [reflexivity|]. vm_compute in R. injection R as <-.
-  split; [|split; [|split]].
-  - intros i [<- | [<- | []]]; (repeat split; try reflexivity; vm_compute; intros w E; try discriminate; injection E as <-; reflexivity).
-  - intros i [<- | [<- | []]]; vm_compute; eexists; (split; [|split; reflexivity]); [left; reflexivity | right; left; reflexivity].
-  - intros j r [E | [E | []]] _; injection E as <- <-; vm_compute; auto.
-  - vm_compute. auto.
+  assert (C : two_ops_check = true) by (vm_compute; reflexivity).
+  unfold two_ops_check in C. destruct (run (net0 0) tr_two_ops) as [s|]; [|discriminate].
+  apply andb_prop in C as [C H6]. apply andb_prop in C as [C H5]. apply andb_prop in C as [C H4].
+  apply andb_prop in C as [C H3]. apply andb_prop in C as [C H2]. apply andb_prop in C as [C H1]. exists s. split; [reflexivity|].
+  split; [|split; [|split; [|split]]].
+  - intros i [<- | [<- | []]]; now apply synced_b_ok.
+  - intros i [<- | [<- | []]]; now apply own_b_ok.
+  - now apply live_known_b_ok.
+  - assumption.
+  - now apply negb_true_iff.
 Qed.
